@@ -15,4 +15,15 @@ var plans = map[string]Plan{
 			"bond ids are the keys of List_bonds() as the user sees them before the edit",
 		},
 	},
+	"C17": {
+		Pkg: "c17",
+		Runs: []Run{
+			{Test: "^TestProps$/^no_leak$", Checks: checks(40, 600), Shards: shards(4, 16)},
+		},
+		Assumptions: []string{
+			"goroutine counts are sampled after a bounded settle loop; the verdict is growth in BOTH of two equal further batches (a one-off lazy start cannot trip it)",
+			"Fitness_default is driven with an empty input simbox (it dereferences a nil config otherwise: outside its accepted domain)",
+			"retained memory is not a verdict (allocator noise); goroutines pin the VM they reference, so a goroutine leak implies retention",
+		},
+	},
 }
